@@ -81,6 +81,9 @@ func (krbAuth *GSSAPIKerberosAuth) readPackage(broker *Broker) ([]byte, int, err
 	}
 	bytesRead += bytes
 	payloadLength := binary.BigEndian.Uint32(lengthInBytes)
+	if payloadLength > uint32(MaxResponseSize) {
+		return nil, bytesRead, PacketDecodingError{fmt.Sprintf("GSSAPI payload of length %d too large", payloadLength)}
+	}
 	payloadBytes := make([]byte, payloadLength)         // buffer for read..
 	bytes, err = broker.readFull(payloadBytes)  // read bytes
 	if err != nil {
